@@ -61,6 +61,16 @@ class Compiled:
         for f in self.unit.files:
             proto = self.parse(f, traditional=optimize)
             bpapi.render(proto, lang, out, optimize=optimize, **kw)
+            # documented: output files are named after the schema FILE as it was named to the compiler (`x.bitproto` -> `x_bp.*`)
+            for ext in {"c": [".c", ".h"], "go": [".go"], "py": [".py"]}[lang]:
+                if not os.path.isfile(os.path.join(out, f.base + "_bp" + ext)):
+                    from .runner import Violation
+
+                    raise Violation(
+                        f"compiling {f.filename} for {lang} did not write {f.base}_bp{ext}; the output directory holds {sorted(os.listdir(out))[:8]}"
+                        + (" (the schema file is a symbolic link to a file of another name)" if self.symlinked else ""),
+                        signature="output-file-name",
+                    )
         return out
 
     def load_python(self) -> Dict[str, Any]:
